@@ -47,6 +47,12 @@ type regModel struct {
 	lastIdxPut []byte
 	badRequest string
 	log        []string
+	// cross-repository mounting: the sibling repository "c/d" holds otherBlobs; with mountCap a
+	// mount of a blob it holds answers 201, otherwise 202 with an upload session (the spec's fallback)
+	otherBlobs   map[string][]byte
+	mountCap     bool
+	mountCorrupt int // 1 = the 201's Docker-Content-Digest names another blob, 2 = it is malformed
+	nMounted     int
 }
 
 func newRegModel() *regModel {
@@ -74,6 +80,23 @@ func (m *regModel) Do(req *http.Request) (*http.Response, error) {
 		return m.reject(req, "wrong scheme or host")
 	}
 	base := "/v2/" + m.repo + "/"
+	if sib := "/v2/c/d/blobs/"; m.otherBlobs != nil && strings.HasPrefix(req.URL.Path, sib) {
+		// the sibling repository serves its blobs (read-only here)
+		dg := req.URL.Path[len(sib):]
+		if req.Method != http.MethodGet || !validDigest(dg) || req.URL.RawQuery != "" {
+			return m.reject(req, "sibling repository: only GET of a blob by digest is expected")
+		}
+		b, ok := m.otherBlobs[dg]
+		if !ok {
+			return m.status(req, http.StatusNotFound, []byte(`{"errors":[{"code":"BLOB_UNKNOWN"}]}`)), nil
+		}
+		resp := m.status(req, http.StatusOK, b)
+		resp.Header.Set("Content-Type", "application/octet-stream")
+		if m.digestHdr {
+			resp.Header.Set("Docker-Content-Digest", dg)
+		}
+		return resp, nil
+	}
 	if !strings.HasPrefix(req.URL.Path, base) {
 		return m.reject(req, "path outside the repository")
 	}
@@ -168,6 +191,40 @@ func (m *regModel) upload(req *http.Request, session string) (*http.Response, er
 	case http.MethodPost:
 		if session != "" {
 			return m.reject(req, "POST must go to blobs/uploads/")
+		}
+		if q := req.URL.Query(); q.Has("mount") || q.Has("from") {
+			dg := q.Get("mount")
+			if !validDigest(dg) {
+				return m.reject(req, "mount without a valid digest")
+			}
+			if q.Has("from") && q.Get("from") != "c/d" {
+				return m.reject(req, "mount from a repository that was not named")
+			}
+			for k := range q {
+				if k != "mount" && k != "from" {
+					return m.reject(req, "mount POST with an unexpected query parameter: "+k)
+				}
+			}
+			if b, ok := m.otherBlobs[dg]; ok && m.mountCap {
+				m.blobs[dg] = b
+				m.nMounted++
+				resp := m.status(req, http.StatusCreated, nil)
+				resp.Header.Set("Location", "/v2/"+m.repo+"/blobs/"+dg)
+				if m.digestHdr {
+					switch m.mountCorrupt {
+					case 1:
+						resp.Header.Set("Docker-Content-Digest", string(digest.FromString("some other blob")))
+					case 2:
+						resp.Header.Set("Docker-Content-Digest", "sha256:zz")
+					default:
+						resp.Header.Set("Docker-Content-Digest", dg)
+					}
+				}
+				return resp, nil
+			}
+			// fall through: 202 and an upload session
+		} else if req.URL.RawQuery != "" {
+			return m.reject(req, "upload POST with an unexpected query")
 		}
 		m.nUploads++
 		id := "u" + strconv.Itoa(m.nUploads)
